@@ -3,6 +3,7 @@ import Avfs.Conc.Facts
 import Avfs.Generated.Locks
 import Avfs.Conc.Allowed
 import Avfs.Lemmas.Lin
+import Avfs.Lemmas.LinRefine
 /-
   C06 — concurrent namespace operations are linearizable.
   Proved: (1) operations that are ONE critical section (OrefaFS Mkdir/MkdirAll/Remove/RemoveAll, MemIdm but AddUser);
@@ -72,7 +73,7 @@ theorem C06_memfs_leaf_ops_linearizable (d : Lin.Dir) (progs : List (List Lin.DO
   Lin.memfs_leaf_ops_linearizable d progs sched
 
 /-- non-vacuity: a concrete three-thread run of the model decides all its calls -/
-example : ((Lin.run (Lin.dimpl true) (Lin.init Lin.staleDir [[.mkdir 3], [.remove 7], [.createExcl 3]]) [0, 2, 1, 0, 2, 1]).1.ths.map (·.done))
+example : ((Lin.run (Lin.dimpl true) (Lin.init Lin.staleDir [[.mkdir [3]], [.remove [7]], [.createExcl [3]]]) [0, 2, 1, 0, 2, 1]).1.ths.map (·.done))
     = [[.ok], [.ok], [.eexist]] := by decide
 
 /-- the tie to the Go source: Mkdir and Remove commit on what they find under the lock (walk, one commit lock, every
@@ -88,7 +89,7 @@ theorem C06_stale_sites : sameSet (staleSites lockFacts) expectedStale = true :=
 /-- the defect repaired in MemFS.Remove (it released the node captured by the walk): kernel-checked counter-schedule of
     the old commit, and the same schedule with the repaired one -/
 theorem C06_stale_remove_not_linearizable :
-    ∀ log ∈ Lin.interleave2 [.remove 7] [.remove 7, .createExcl 7],
+    ∀ log ∈ Lin.interleave2 [.remove [7]] [.remove [7], .createExcl [7]],
       ¬ ((Lin.seqRun Lin.dspec Lin.staleDir (fun _ => []) log).1 =
             (Lin.run (Lin.dimpl false) (Lin.init Lin.staleDir Lin.staleProgs) Lin.staleSched).1.sh ∧
          (Lin.seqRun Lin.dspec Lin.staleDir (fun _ => []) log).2 0 = [.ok] ∧
@@ -98,5 +99,27 @@ theorem C06_stale_remove_not_linearizable :
 theorem C06_fresh_remove_same_schedule :
     AL.lookup 1 (Lin.run (Lin.dimpl true) (Lin.init Lin.staleDir Lin.staleProgs) Lin.staleSched).1.sh.nlink = some 1 :=
   Lin.fresh_remove_same_schedule
+
+/-! ### the abstract directory is what the sequential MemFS model does (Lemmas/LinRefine.lean)
+
+  `Sim s d D`: the entries of directory `d` in the heap are those of `D` (names, nodes, kinds), its directory entries are
+  empty and none is a symbolic link (leaf assumption), link counts agree, both allocate the same next number.
+  `Setting`: invariant `WF`, an administrator's view, `d` reached by the components `a`. -/
+
+/-- every schedule of a concurrent two-phase execution of Mkdir / exclusive create / Remove on leaf names of `d`: the
+    results of every thread are the outcomes the sequential MemFS MODEL returns when the decided calls run in
+    decisive-step order from the heap `s`, the final abstract directory is the final heap's, program order is kept -/
+theorem C06_memfs_concurrent_refines {s : FS.Store} {root par d : FS.Ino} {v : FS.View} {a : List Bytes} {D : Lin.Dir}
+    (h : FS.Setting s root v a par d) (hsim : FS.Sim s d D)
+    (vid perm : Nat) (progs : List (List Lin.DOp)) (hprogs : ∀ p ∈ progs, ∀ op ∈ p, FS.ValidComp (FS.opName op))
+    (sched : List Nat) :
+    let fin := (Lin.run (Lin.dimpl true) (Lin.init D progs) sched).1
+    let log := (Lin.run (Lin.dimpl true) (Lin.init D progs) sched).2
+    let mem := FS.memRun v vid a perm (log.map (·.2)) s
+    FS.Sim mem.2 d fin.sh ∧ FS.Setting mem.2 root v a par d ∧
+    ∀ t th, fin.ths[t]? = some th →
+      th.done.map some = (FS.resultsOf t log mem.1).map FS.absOut ∧
+      ∃ p, progs[t]? = some p ∧ Lin.callsOf t log ++ th.todo = p :=
+  FS.memfs_concurrent_refines h hsim vid perm progs hprogs sched
 
 end Avfs.Conc
